@@ -478,3 +478,66 @@ func randShuffle(m *Machine, args []Value, g *Term, site ssa.Instruction) Value 
 func (m *Machine) callBuiltinClosure(a *FuncAlt, args []Value, g *Term, site ssa.Instruction) Value {
 	panic(notEncoded("builtin closure %s", a.Builtin))
 }
+
+// ---------- sync.Map: modelled by an ordinary symbolic map kept in its own
+// `dirty` field, so copying / zeroing the struct behaves like the real type ----------
+
+func (m *Machine) syncMapField(p *PtrV) (*PtrV, types.Type) {
+	pkg := m.prog.ImportedPackage("sync")
+	st := pkg.Pkg.Scope().Lookup("Map").Type().Underlying().(*types.Struct)
+	idx := -1
+	for i := 0; i < st.NumFields(); i++ {
+		if st.Field(i).Name() == "dirty" {
+			idx = i
+		}
+	}
+	if idx < 0 {
+		panic(notEncoded("sync.Map layout"))
+	}
+	r := &PtrV{}
+	for _, a := range p.Alts {
+		r.Alts = append(r.Alts, PtrAlt{a.G, a.Obj, append(append([]int{}, a.Path...), idx)})
+	}
+	return r, st.Field(idx).Type()
+}
+
+func init() {
+	intrinsicTable["(*sync.Map).Load"] = func(m *Machine, args []Value, g *Term, site ssa.Instruction) Value {
+		m.stubsUsed["sync.Map = symbolic map"]++
+		fp, _ := m.syncMapField(args[0].(*PtrV))
+		mv := m.load(fp, g, site).(*MapV)
+		val, ok := Value(&IfaceV{}), TS.False
+		for _, a := range mv.Alts {
+			for _, e := range a.Obj.val.(*MapContent).Entries {
+				hit := And(a.G, e.P, valueEq(e.K, args[1]))
+				if hit.IsFalse() {
+					continue
+				}
+				val = mergeValue(hit, e.V, val)
+				ok = Or(ok, hit)
+			}
+		}
+		return &TupleV{E: []Value{val, ok}}
+	}
+	intrinsicTable["(*sync.Map).Store"] = func(m *Machine, args []Value, g *Term, site ssa.Instruction) Value {
+		m.stubsUsed["sync.Map = symbolic map"]++
+		fp, ft := m.syncMapField(args[0].(*PtrV))
+		mv := m.load(fp, g, site).(*MapV)
+		nilG := refNil(mv.Alts)
+		if !And(g, nilG).IsFalse() {
+			o := m.newObject(&MapContent{}, ft, "syncmap")
+			nm := mergeValue(nilG, &MapV{Alts: []RefAlt{{TS.True, o}}}, mv).(*MapV)
+			m.store(fp, nm, g, site)
+			mv = nm
+		}
+		m.mapUpdate(mv, args[1], args[2], g, site)
+		return nil
+	}
+	intrinsicTable["(*sync.Map).Delete"] = func(m *Machine, args []Value, g *Term, site ssa.Instruction) Value {
+		m.stubsUsed["sync.Map = symbolic map"]++
+		fp, _ := m.syncMapField(args[0].(*PtrV))
+		mv := m.load(fp, g, site).(*MapV)
+		m.mapDelete(mv, args[1], g)
+		return nil
+	}
+}
